@@ -12,6 +12,22 @@ Theorem C10_seeded_history_independent :
 Proof. exact seeded_history_independent_l. Qed.
 Print Assumptions C10_seeded_history_independent.
 
+(* Stages are threaded through the one global generator; only the first one seeds it,
+   yet the outputs of all three are history-independent. *)
+Theorem C10_run_bind :
+  forall (S D Rq : Type) (draw : Rq -> S -> D * S) (A B : Type) (p : prog D Rq A) (f : A -> prog D Rq B) (s : S),
+  run S D Rq draw (bindP D Rq p f) s = let '(a, s') := run S D Rq draw p s in run S D Rq draw (f a) s'.
+Proof. exact run_bind_l. Qed.
+Print Assumptions C10_run_bind.
+
+Theorem C10_pipeline_history_independent :
+  forall (S D Rq : Type) (reseed : Z -> S) (draw : Rq -> S -> D * S) (I A B C : Type)
+         (sim : I -> prog D Rq A) (wbp : A -> prog D Rq B) (vcf : B -> prog D Rq C) (k : Z) (g g' : S) (i : I),
+  simgenotype_run S D Rq reseed draw false (fun i => bindP D Rq (sim i) (fun a => bindP D Rq (wbp a) vcf)) (Some k) g i
+  = simgenotype_run S D Rq reseed draw false (fun i => bindP D Rq (sim i) (fun a => bindP D Rq (wbp a) vcf)) (Some k) g' i.
+Proof. exact pipeline_history_independent_l. Qed.
+Print Assumptions C10_pipeline_history_independent.
+
 Theorem C10_seeded_is_function_of_seed :
   forall (S D Rq : Type) (reseed : Z -> S) (draw : Rq -> S -> D * S)
          (I O : Type) (P : I -> prog D Rq O) (k : Z) (g : S) (i : I),
